@@ -28,6 +28,10 @@ JudgeHeader(o) ==
             \o (IF o.map.raw_msg # RawAfterMsg(o.sec, o.ms, o.seq, o.body) THEN << PFlag("C04", "ToMapStr raw_msg is not the header's message") >> ELSE << >>)
             \o (IF o.map.record_type # o.libname THEN << PFlag("C04", "ToMapStr record_type is not the header's type") >> ELSE << >>)
             \o (IF o.map.timestamp # o.ts_want THEN << PFlag("C04", "ToMapStr @timestamp is not the header's time (UTC)") >> ELSE << >>)
+            \* "always": also on a later call, whatever the caller did with the map an earlier call handed out
+            \o (IF o.map2.sequence # AsciiDigits(o.seq) \/ o.map2.raw_msg # RawAfterMsg(o.sec, o.ms, o.seq, o.body)
+                   \/ o.map2.record_type # o.libname \/ o.map2.timestamp # o.ts_want
+                THEN << PFlag("C04", "a later ToMapStr call does not report the header (after the caller changed the map an earlier call returned)") >> ELSE << >>)
           ELSE << >>)
 
 \* o: [line, how, pl_ok, pl_nil, p_ok, p_nil, panic]
